@@ -19,6 +19,7 @@ package main
 
 import (
 	"bytes"
+	"compress/gzip"
 	"context"
 	"crypto/tls"
 	"crypto/x509"
@@ -66,6 +67,9 @@ type op struct {
 	// is cancelled by a "hangup" op naming it). Target: which request a hangup ends.
 	Leaves bool
 	Target string
+	// Gzip: the client asks for a gzip-compressed response (curl --compressed,
+	// a browser; relic's own client prefers snappy).
+	Gzip bool
 }
 
 // request contexts of the clients that may go away, per execution
@@ -129,6 +133,9 @@ func (o op) request() *http.Request {
 	case "home":
 		req = httptest.NewRequest("GET", "/", nil)
 	}
+	if o.Gzip {
+		req.Header.Set("Accept-Encoding", "gzip")
+	}
 	if o.Leaves {
 		leaveMu.Lock()
 		if ctx := leaveCtx[o.Name]; ctx != nil {
@@ -180,8 +187,28 @@ func perform(srv *server.Server, h http.Handler, o op) outcome {
 		return outcome{Op: o}
 	}
 	rec := httptest.NewRecorder()
-	h.ServeHTTP(rec, o.request())
-	return outcome{Op: o, Status: rec.Code, Body: rec.Body.Bytes()}
+	var w http.ResponseWriter = rec
+	if o.Gzip {
+		// the connection is a place where a handler can be overtaken too: every
+		// write of response bytes is a scheduling point
+		w = pointWriter{rec}
+	}
+	h.ServeHTTP(w, o.request())
+	body := rec.Body.Bytes()
+	if rec.Header().Get("Content-Encoding") == "gzip" {
+		zr, err := gzip.NewReader(bytes.NewReader(body))
+		var plain []byte
+		if err == nil {
+			plain, err = io.ReadAll(zr)
+		}
+		if err != nil {
+			return outcome{Op: o, Status: 599, Body: []byte("response body is not a complete gzip stream: " + err.Error())}
+		}
+		body = plain
+	} else if o.Gzip && rec.Code == 200 {
+		_ = body // an uncompressed answer to a client that accepts gzip is fine
+	}
+	return outcome{Op: o, Status: rec.Code, Body: body}
 }
 
 var verifyMu sync.Mutex
@@ -237,6 +264,19 @@ type scenario struct {
 	Threads [][]op
 }
 
+type pointWriter struct{ *httptest.ResponseRecorder }
+
+func (p pointWriter) Write(b []byte) (int, error) {
+	if s := mc.Active(); s != nil {
+		if t := s.Me(); t != nil {
+			t.Point("response.write")
+		}
+	}
+	return p.ResponseRecorder.Write(b)
+}
+
+func gz(o op, name string) op { o.Gzip = true; o.Name = name; return o }
+
 func scenarios(thorough bool) []scenario {
 	sA := op{Kind: "sign", Name: "a.ps1", Key: "rsaA", Digest: "sha256"}
 	sB := op{Kind: "sign", Name: "b.ps1", Key: "p256A", Digest: "sha384", Desc: "opus-b"}
@@ -257,6 +297,8 @@ func scenarios(thorough bool) []scenario {
 		// one client goes away while its request is somewhere inside the server: the
 		// other request for the same key must not notice
 		{"same-key-one-client-hangs-up", [][]op{{sLeave}, {sA2}, {{Kind: "hangup", Target: sLeave.Name}}}},
+		// clients that take gzip responses: one response completes, then two overlap
+		{"gzip-responses-overlap-after-an-earlier-one", [][]op{{gz(sA, "g1.ps1"), gz(sB, "g2.ps1")}, {gz(sA2, "g3.ps1")}}},
 	}
 	if thorough {
 		sc = append(sc,
@@ -618,6 +660,15 @@ func shutdownPhase() {
 			early = true
 		case <-time.After(300 * time.Millisecond):
 		}
+		// ... and neither must Serve return (relic serve exits when it does, taking
+		// the in-flight handler with it)
+		serveEarly := false
+		var serveErr error
+		select {
+		case serveErr = <-serveDone:
+			serveEarly = true
+		default:
+		}
 		close(release)
 		res := <-resCh
 		if !early {
@@ -627,9 +678,14 @@ func shutdownPhase() {
 				run.Violation("shutdown:close-never-returns", "daemon.Close did not return within 60 s after the in-flight request was released (point "+pt+")", pt)
 			}
 		}
-		<-serveDone
+		if !serveEarly {
+			<-serveDone
+		}
 		run.Eval(1)
 		run.Distinct("shutdown|" + pt)
+		if serveEarly {
+			run.Violation("shutdown:serve-returns-while-a-request-is-in-flight", fmt.Sprintf("daemon.Close while a /sign request is blocked at token.%s: Daemon.Serve returned (%v) before the request finished; the process would exit with the request unanswered", pt, serveErr), pt)
+		}
 		desc := fmt.Sprintf("daemon.Close while a /sign request is blocked at token.%s: request -> status %d err %v; Close returned early: %v", pt, res.status, res.err, early)
 		if early {
 			run.Violation("shutdown:close-does-not-wait-for-in-flight-request", desc, pt)
